@@ -170,8 +170,8 @@ isinit_d(false)
 {
   if(m->size1!=m->size2)
     throw std::runtime_error("SU_vector::SU_vector(gsl_matrix_complex*): Matrix must be square");
-  if(dim==1)
-    throw std::runtime_error("SU_vector::SU_vector(unsigned int): Invalid size: dimension 1 is not supported");
+  if(dim<2)
+    throw std::runtime_error("SU_vector::SU_vector(gsl_matrix_complex*): Invalid size: dimensions 0 and 1 are not supported");
   if(dim>SQUIDS_MAX_HILBERT_DIM)
     throw std::runtime_error("SU_vector::SU_vector(gsl_matrix_complex*): Invalid size: only up to SU(" SQUIDS_MAX_HILBERT_DIM_STR ") is supported");
 
@@ -475,8 +475,11 @@ SU_vector SU_vector::UDaggerTransform(gsl_matrix_complex* em) const{
 std::pair<std::unique_ptr<gsl_vector,void (*)(gsl_vector*)>,
 std::unique_ptr<gsl_matrix_complex,void (*)(gsl_matrix_complex*)>>
 SU_vector::GetEigenSystem(bool order) const{
-  gsl_vector * eigenvalues = gsl_vector_alloc(dim);
-  gsl_matrix_complex * eigenvectors = gsl_matrix_complex_alloc(dim,dim);
+  //owned from the start: GetGSLMatrix() below throws for vectors without (supported) contents
+  std::unique_ptr<gsl_vector,void (*)(gsl_vector*)> eigenvalues_owner(gsl_vector_alloc(dim),gsl_vector_free);
+  std::unique_ptr<gsl_matrix_complex,void (*)(gsl_matrix_complex*)> eigenvectors_owner(gsl_matrix_complex_alloc(dim,dim),gsl_matrix_complex_free);
+  gsl_vector * eigenvalues = eigenvalues_owner.get();
+  gsl_matrix_complex * eigenvectors = eigenvectors_owner.get();
   //The closed-form SU(3) solution (SU_inc/EigenSystemSU3.txt) divides by the
   //(0,2) matrix element and by differences of eigenvalues, so it yields NaN for
   //diagonal matrices, projectors and multiples of the identity and loses
@@ -524,9 +527,7 @@ SU_vector::GetEigenSystem(bool order) const{
   // sorting eigenvalues
   if (order)
     gsl_eigen_hermv_sort(eigenvalues,eigenvectors,GSL_EIGEN_SORT_VAL_ASC);
-  return std::make_pair(
-    std::unique_ptr<gsl_vector,void (*)(gsl_vector*)>(eigenvalues,gsl_vector_free),
-    std::unique_ptr<gsl_matrix_complex,void (*)(gsl_matrix_complex*)>(eigenvectors,gsl_matrix_complex_free));
+  return std::make_pair(std::move(eigenvalues_owner),std::move(eigenvectors_owner));
 }
 
 /*
